@@ -33,7 +33,7 @@ from harness.common import REJECT, MachineryError, xb, unx, blist, batch_paralle
 
 PROPERTY = "C07"
 DRIVERS = ["drv_c07"]
-PROPS_MODULES = ["Buidl.Props.C07", "Buidl.Props.C07Tap"]
+PROPS_MODULES = ["Buidl.Props.C07", "Buidl.Props.C07Tap", "Buidl.Props.C07Timelock"]
 
 _OP_FUNCS = """encode_num decode_num op_0 op_1negate op_1 op_2 op_3 op_4 op_5 op_6 op_7 op_8 op_9 op_10 op_11 op_12
 op_13 op_14 op_15 op_16 op_nop op_if op_notif op_verify op_return op_toaltstack op_fromaltstack op_2drop op_2dup
@@ -51,6 +51,12 @@ ANCHORS = [("buidl/op.py", f) for f in _OP_FUNCS] + [
     ("buidl/timelock.py", "Sequence.is_relative"), ("buidl/timelock.py", "Sequence.is_relative_time"),
     ("buidl/timelock.py", "Sequence.is_relative_block"), ("buidl/timelock.py", "Sequence.is_comparable"),
     ("buidl/timelock.py", "Sequence.__lt__"),
+    ("buidl/timelock.py", "Locktime.parse"), ("buidl/timelock.py", "Locktime.serialize"),
+    ("buidl/timelock.py", "Locktime.block_height"), ("buidl/timelock.py", "Locktime.mtp"),
+    ("buidl/timelock.py", "Sequence.parse"), ("buidl/timelock.py", "Sequence.serialize"),
+    ("buidl/timelock.py", "Sequence.from_relative_time"), ("buidl/timelock.py", "Sequence.from_relative_blocks"),
+    ("buidl/timelock.py", "Sequence.is_rbf_able"), ("buidl/timelock.py", "Sequence.is_max"),
+    ("buidl/timelock.py", "Sequence.relative_blocks"), ("buidl/timelock.py", "Sequence.relative_time"),
 ]
 RULE = ("cases come from one PRNG seeded by VERIF_SEED plus fixed catalogues (all 0..2-byte strings and integer "
         "boundaries for the codec; every opcode of both dispatch tables on all stacks of depth <= 3 over a 6-element "
@@ -79,6 +85,17 @@ CLAUSES = {
     "opcodes outside the table / disabled opcodes / P2SH and witness-program patterns / tapscript table":
         "correspondence-only (model = implementation on the generated cases; the specification covers only the "
         "implemented subset)",
+    "Locktime / Sequence objects outside the interpreter (timelock.py as a whole: constructors, 4-byte codec, "
+    "block_height / mtp, BIP68 decoding relative_blocks / relative_time, from_relative_*, is_rbf_able / is_max, object "
+    "comparison)":
+        "proved about the model (C07Timelock: timelock_source_constants, locktimeNew_iff, sequenceNew_iff, "
+        "locktime_parse_serialize, locktime_serialize_parse, sequence_parse_serialize, sequence_serialize_parse, "
+        "locktime_height_xor_mtp, locktime_comparable_iff, locktime_comparable_equiv, locktime_lt_spec, sequence_kinds, "
+        "from_relative_blocks_roundtrip, from_relative_time_roundtrip, from_relative_negative, rbf_iff_not_max, "
+        "sequence_comparable_iff, sequence_comparable_per, sequence_lt_spec; O07g_witness: the named constructors do "
+        "not range-check against BIP68's 16 bits); model tied to the code by the tl_* correspondence stream and the "
+        "re-extracted operators / literals of Gen/Timelock.lean. Not part of the property's statement: a disagreement "
+        "here is a broken correspondence, not by itself a violation",
     "the source still has the thresholds and operators the model was written against":
         "proved against Buidl.Gen.Op (gen_depth_checks, gen_compare_ops, gen_num_literals, table via opPairs/table_pairs)",
 }
@@ -263,6 +280,50 @@ def _impl(t):
                 what = ",".join(n for n, a, b in zip(_ARG_NAMES, before, after) if a != b)
                 changed = f"changed@{i + 1}:{what}"
         return " ".join(outs) + " args=" + (changed or "same")
+    if op.startswith("tl_"):
+        return _impl_timelock(op, t[1:])
+    raise UnknownOp(op)
+
+
+def _opt(v):
+    return "NONE" if v is None else str(int(v))
+
+
+def _b(v):
+    return "1" if v else "0"
+
+
+def _impl_timelock(op, a):
+    """buidl/timelock.py driven directly (constructors, codec, accessors, object comparison)"""
+    from io import BytesIO
+    from buidl.timelock import Locktime, Sequence
+    if op == "tl_loc":
+        v = Locktime(int(a[0]))
+        return f"{xb(v.serialize())} h={_opt(v.block_height())} m={_opt(v.mtp())}"
+    if op == "tl_seq":
+        v = Sequence(int(a[0]))
+        return (f"{xb(v.serialize())} rbf={_b(v.is_rbf_able())} max={_b(v.is_max())} rel={_b(v.is_relative())} "
+                f"relt={_b(v.is_relative_time())} relb={_b(v.is_relative_block())} blocks={_opt(v.relative_blocks())} "
+                f"time={_opt(v.relative_time())}")
+    if op in ("tl_lpair", "tl_spair"):
+        cls = Locktime if op == "tl_lpair" else Sequence
+        x, y = cls(int(a[0])), cls(int(a[1]))
+        try:
+            lt = _b(x < y)
+        except ValueError:
+            lt = "RAISE"
+        return f"cmp={_b(x.is_comparable(y))} lt={lt}"
+    if op == "tl_frt":
+        return str(int(Sequence.from_relative_time(int(a[0]))))
+    if op == "tl_frb":
+        return str(int(Sequence.from_relative_blocks(int(a[0]))))
+    if op in ("tl_lparse", "tl_sparse"):
+        cls = Locktime if op == "tl_lparse" else Sequence
+        s = BytesIO(unx(a[0]))
+        v = cls.parse(s)
+        if type(v) is not cls:
+            return "WRONG-TYPE"
+        return f"{int(v)} {xb(s.read())}"
     raise UnknownOp(op)
 
 
@@ -626,6 +687,51 @@ def run(ctx):
         rec.note("Script.evaluate still recognises witness programs in the middle of a script (work/C06/fix-F06f.diff "
                  "not applied): programs with such patterns are compared with the model variant `p`")
     DW = min(4, W)      # the native driver is fast; few processes keep the fork overhead low
+
+    # ---------------------------------------------------------------- timelock.py outside the interpreter
+    tl = []
+    B32 = [0, 1, 2, 511, 512, 513, 1023, 1024, 0xFFFE, 0xFFFF, 0x10000, 0x10001, 2 ** 22 - 1, 2 ** 22, 2 ** 22 + 1,
+           2 ** 22 + 0xFFFF, 2 ** 22 + 0x10000, 2 ** 23, 2 ** 25 - 1, 2 ** 25, 2 ** 25 + 512, 2 ** 31 - 1, 2 ** 31,
+           2 ** 31 + 1, 2 ** 31 + 2 ** 22 + 7, 499999999, 500000000, 500000001, 1582820194, 2 ** 32 - 2, 2 ** 32 - 1]
+    OUT = [-1, -2, -511, -512, -513, -2 ** 31, -2 ** 32, 2 ** 32, 2 ** 32 + 1, 2 ** 33, 2 ** 41, 2 ** 41 + 511, 2 ** 64]
+    vals = B32 + OUT + [rng.randrange(2 ** 32) for _ in range(ctx.n(150, 3000))] + \
+        [rng.randrange(2 ** 16) | (rng.randrange(2) << 22) | (rng.randrange(4) == 0) << 31 | rng.randrange(64) << 16
+         for _ in range(ctx.n(150, 3000))]
+    for v in vals:
+        tl += [f"tl_loc {v}", f"tl_seq {v}", f"tl_frb {v}", f"tl_frt {v}"]
+    for v in [rng.randrange(2 ** 26) for _ in range(ctx.n(100, 2000))] + [512 * k + d for k in (1, 2, 65535, 65536)
+                                                                         for d in (-1, 0, 1)]:
+        tl.append(f"tl_frt {v}")
+    inr = [v for v in vals if 0 <= v < 2 ** 32]
+    pairs = [(a, b) for a in B32 for b in B32 if (a + b) % 3 == 0] + \
+        [(rng.choice(inr), rng.choice(inr)) for _ in range(ctx.n(300, 6000))]
+    for a, b in pairs:
+        tl += [f"tl_lpair {a} {b}", f"tl_spair {a} {b}"]
+    for k in range(0, 8):
+        for _ in range(ctx.n(6, 60)):
+            sb = rbytes(rng, k)
+            tl += [f"tl_lparse {xb(sb)}", f"tl_sparse {xb(sb)}"]
+    for sb in (b"\xff" * 4, b"\xff" * 5, b"\x00" * 4, bytes.fromhex("0065cd1d"), bytes.fromhex("ff64cd1d01")):
+        tl += [f"tl_lparse {xb(sb)}", f"tl_sparse {xb(sb)}"]
+    tl = list(dict.fromkeys(tl))
+    tl_model = drv.batch(tl)
+    for line, m in zip(tl, tl_model):
+        impl = impl_line(line)
+        if m == "bad-op":
+            raise MachineryError(f"driver refused its own protocol: {line}")
+        rec.compare("timelock_api", {"line": line, "oracle": "model"}, impl, m, determined=False, key=line)
+        rec.count("timelock_api:" + line.split(" ")[0] + ":" + ("REJECT" if impl == REJECT else "ok"))
+    # objects do not remember earlier queries: every accessor twice on ONE object, interleaved with comparisons
+    from buidl.timelock import Locktime as _L, Sequence as _S
+    for v in [x for x in B32] + [rng.randrange(2 ** 32) for _ in range(ctx.n(40, 400))]:
+        so, lo, other = _S(v), _L(v), _S(rng.choice(B32))
+        first = (so.relative_blocks(), so.relative_time(), so.is_rbf_able(), so.serialize(), lo.block_height(), lo.mtp())
+        try:
+            so < other
+        except ValueError:
+            pass
+        second = (so.relative_blocks(), so.relative_time(), so.is_rbf_able(), so.serialize(), lo.block_height(), lo.mtp())
+        rec.compare("timelock_api_reuse", {"v": v}, repr(second), repr(first), determined=False, key=f"reuse{v}")
 
     # ---------------------------------------------------------------- known / fixed findings: witness replay
     wit_b = "op r 0 113 0 0 1 6 x01 x02 x03 x04 x05 x06 0"
